@@ -298,9 +298,9 @@ func hmacSection(x *h.X) {
 	x.Outcome("hmacprf/" + hash)
 	c := &prfCase{x: x, p: p, max: digest[hash], hLen: digest[hash], cfg: cfg, big: true,
 		full: func(in []byte) []byte { return ref.HMAC(hash, kb, in) }}
-	maxIn := 80
+	maxIn := 2*blockSize[hash] + 4
 	if x.Thorough() {
-		maxIn = 2*blockSize[hash] + 4
+		maxIn = 5*blockSize[hash] + 4
 	}
 	c.allLengths(seq(0, maxIn))
 }
@@ -340,9 +340,10 @@ func cmacSection(x *h.X) {
 	x.Outcome(fmt.Sprintf("cmacprf/%d/msb%02b", ksize, ki))
 	c := &prfCase{x: x, p: p, max: 16, hLen: 16, cfg: cfg, big: true,
 		full: func(in []byte) []byte { return ref.CMAC(kb, in) }}
-	maxIn := 80
+	// every input length over many AES blocks: strided processing of leading blocks shows only for length classes
+	maxIn := 330
 	if x.Thorough() {
-		maxIn = 130
+		maxIn = 1100
 	}
 	c.allLengths(seq(0, maxIn))
 }
